@@ -19,8 +19,8 @@ func init() {
 			"(R1) types.DateString builds the string from a constant format whose numeric verbs are zero padded with the widths ISO 32000 7.9.4 fixes — year 4, month, day, hour, minute, second 2, offset hours and minutes 2 (or uses time.Format with the layout 20060102150405): a narrower year shifts every following field for years below 1000. " +
 			"(R2) in types.parseTimezone the sign of the offset reaches both results: if the hours returned on some path are negated (× −1) then the minutes returned on that path are negated as well — FixedZone is fed hours·3600 + minutes·60, so −03'30' must not become −3 h + 30 min. " +
 			"(R3) the strict field parsers compare their field with exactly the bounds of the date grammar: month 1..12, day 1..31, hour ≤ 23, minute ≤ 59, second ≤ 59, offset minutes ≤ 59 (comparisons normalised to cuts as in C13). " +
-			"NOT decided: calendar arithmetic (days per month is delegated to time.Date), that every instant in range round-trips (value-level), relaxed-mode repairs, out-of-spec date forms.",
-		Rules:       []string{"C14.R1 TABLE: zero-padded field widths of the date writer", "C14.R2 siblings: the offset's sign is applied to hours and minutes alike", "C14.R3 TABLE: field bounds of the strict date parser"},
+			"(R4) DateString decides the sign on the zone offset divided by at most 60 (whole minutes), not on its hour part, which is 0 for −00:30; (R5) date.go either has no leap-year arithmetic of its own (month lengths come from time.Date) or its rule has all three clauses %4, %100, %400. NOT decided: calendar arithmetic (days per month is delegated to time.Date), that every instant in range round-trips (value-level), relaxed-mode repairs, out-of-spec date forms.",
+		Rules:       []string{"C14.R1 TABLE: zero-padded field widths of the date writer", "C14.R2 siblings: the offset's sign is applied to hours and minutes alike", "C14.R3 TABLE: field bounds of the strict date parser", "C14.R4 shape: the written sign is decided on the whole offset", "C14.R5 TABLE: no partial hand-written leap-year rule"},
 		Assumptions: []string{"package time is correct"},
 		Level:       "other",
 		Technique:   "format-literal and constant table agreement; value-source tracing of the two offset results",
@@ -101,6 +101,9 @@ func runC14(c *Ctx) {
 	r.MinInst["C14.R1"] = 1
 	r.MinInst["C14.R2"] = 1
 	r.MinInst["C14.R3"] = 6
+	r.MinInst["C14.R4"] = 1
+	r.MinInst["C14.R5"] = 1
+	checkC14Extras(c)
 	// ---- R1
 	if fn := p.Func("pkg/pdfcpu/types.DateString"); fn == nil {
 		r.Bad("C14.R1", "pkg/pdfcpu/types.DateString", "anchor", "", "UNRESOLVED-ANCHOR")
@@ -268,5 +271,107 @@ func runC14(c *Ctx) {
 		} else {
 			r.Bad("C14.R3", fid, "field bounds", p.Pos(fn.Pos()), "the field's comparisons cut after {"+strings.Join(have, ", ")+"}, the date grammar needs {"+strings.Join(want, ", ")+"}: a valid date is rejected or an invalid one accepted")
 		}
+	}
+}
+
+// ---------------- round 3 seeds: sign decided on the whole offset; complete leap rule ----------------
+
+// divisorChain: v = x / c1 / c2 … -> (x, c1*c2*…)
+func divisorChain(v ssa.Value) (ssa.Value, int64) {
+	d := int64(1)
+	for {
+		switch x := v.(type) {
+		case *ssa.BinOp:
+			if x.Op == token.QUO {
+				if k, ok := constInt(x.Y); ok && k > 0 {
+					d *= k
+					v = x.X
+					continue
+				}
+			}
+		case *ssa.Convert:
+			v = x.X
+			continue
+		}
+		return v, d
+	}
+}
+
+func checkC14Extras(c *Ctx) {
+	p, r := c.P, c.R
+	// R4: the sign of the written offset is decided on a value that is non-zero for every non-zero whole-minute offset
+	if fn := p.Func("pkg/pdfcpu/types.DateString"); fn != nil {
+		var zone ssa.Value
+		eachInstr(fn, func(_ *ssa.BasicBlock, _ int, i ssa.Instruction) {
+			if ex, ok := i.(*ssa.Extract); ok && ex.Index == 1 {
+				if call, ok := ex.Tuple.(*ssa.Call); ok {
+					if _, ref := callRef(call); strings.HasSuffix(ref, "time.Time.Zone") || strings.HasSuffix(ref, "(time.Time).Zone") {
+						zone = ex
+					}
+				}
+			}
+		})
+		n := 0
+		eachInstr(fn, func(_ *ssa.BasicBlock, _ int, i ssa.Instruction) {
+			b, ok := i.(*ssa.BinOp)
+			if !ok || (b.Op != token.LSS && b.Op != token.GEQ && b.Op != token.GTR && b.Op != token.LEQ) {
+				return
+			}
+			k, isC := constInt(b.Y)
+			v := b.X
+			if !isC {
+				k, isC = constInt(b.X)
+				v = b.Y
+			}
+			if !isC || k != 0 {
+				return
+			}
+			root, div := divisorChain(v)
+			if zone == nil || root != zone {
+				return
+			}
+			// only the test that decides the sign string matters: it controls a φ of "+" / "-"
+			n++
+			construct := fmt.Sprintf("sign test#%d", n)
+			if div <= 60 {
+				r.OK("C14.R4", FuncID(fn), construct, p.Pos(b.Pos()), fmt.Sprintf("the offset in seconds divided by %d is compared with 0: non-zero for every non-zero whole-minute offset", div), true)
+			} else {
+				r.Bad("C14.R4", FuncID(fn), construct, p.Pos(b.Pos()), fmt.Sprintf("the sign of the offset is decided on the offset divided by %d: integer division truncates towards zero, so an offset between −00:01 and −00:59 has hour part 0, is written with '+', and reads back as another instant", div))
+			}
+		})
+		if zone != nil && n == 0 {
+			r.Bad("C14.R4", FuncID(fn), "sign test", p.Pos(fn.Pos()), "UNDECIDED: no comparison of the zone offset with 0 found in DateString")
+		}
+		if zone == nil {
+			r.OK("C14.R4", FuncID(fn), "sign test", p.Pos(fn.Pos()), "the offset is not taken from Time.Zone here (a time layout writes it)", false)
+		}
+	}
+	// R5: the calendar is delegated to package time, or a hand-written leap rule has all three clauses
+	rems := map[int64]string{}
+	for _, fn := range p.Funcs {
+		if p.File(fn.Pos()) != "pkg/pdfcpu/types/date.go" {
+			continue
+		}
+		fn := fn
+		eachInstr(fn, func(_ *ssa.BasicBlock, _ int, i ssa.Instruction) {
+			if b, ok := i.(*ssa.BinOp); ok && b.Op == token.REM {
+				if k, ok := constInt(b.Y); ok && (k == 4 || k == 100 || k == 400) {
+					rems[k] = FuncID(fn) + " (" + p.Pos(b.Pos()) + ")"
+				}
+			}
+		})
+	}
+	switch {
+	case len(rems) == 0:
+		r.OK("C14.R5", "pkg/pdfcpu/types/date.go", "leap years", "", "no hand-written leap-year arithmetic: month lengths come from package time", true)
+	case len(rems) == 3:
+		r.OK("C14.R5", "pkg/pdfcpu/types/date.go", "leap years", "", "a hand-written leap rule with the 4, 100 and 400 year clauses", true)
+	default:
+		var have []string
+		for k, w := range rems {
+			have = append(have, fmt.Sprintf("%%%d in %s", k, w))
+		}
+		sort.Strings(have)
+		r.Bad("C14.R5", "pkg/pdfcpu/types/date.go", "leap years", "", "a hand-written leap-year rule lacks one of the clauses y%4, y%100, y%400 (found "+strings.Join(have, "; ")+"): 29 February of such a year is written by DateString and rejected (or accepted wrongly) by the strict parser")
 	}
 }
